@@ -107,6 +107,32 @@ reg("C16",
     "Trusted: the substituted datetime module in bromelia._internal_utils; SessionHandler.reset() at history start models process start.",
     "stateful property-based testing with a virtual clock (Hypothesis)", "DESIGN.md#c16")
 
+WORLD = ("Controlled world: the real Diameter node runs on a harness-owned scheduler (every threading/queue/time/selector/socket "
+         "operation, and optionally every source line of bromelia, is a scheduling point), a virtual clock and a fake TCP socket "
+         "calibrated on the sandbox kernel; the scripted peer speaks reference-encoded Diameter. ")
+reg("C03",
+    "(a) decoder: Hypothesis-generated structural mutations of reference-encoded streams + a systematic sweep (every truncation "
+    "point; every length field x {0..40, true+-1..4, 2^16, 2^24-1}; nesting depth up to 2000) through DiameterMessage.load and "
+    "DiameterAVP.load with a deterministic step bound (sys.monitoring), library-error-type and result-size oracles; thorough adds "
+    "16 atheris/libFuzzer campaigns with the same oracle inside the target. (b) live node in the controlled world.",
+    "Trusted: step counter (function entries + jumps in bromelia code), bound 5000+400n+n^2/16; reference decoder for the "
+    "malformed/well-formed classification. " ,
+    "structure-aware mutation testing + coverage-guided fuzzing (atheris) with semantic oracles", "DESIGN.md#c03")
+reg("C04",
+    WORLD + "Generated message sequences x segmentations (one segment, aligned, inside header, inside AVP header, bytewise, random, "
+    "coalesced) x 1-2 consumers x schedule prefixes (random walk, PCT-like, optional source-line preemption) + fair completion; "
+    "delivered dump() bytes compared with the sent sequence (multiset, once, order), DWA order reference-decoded.",
+    "Schedules are sampled, not enumerated; preemption granularity = shim operation / source line; liveness judged within 12 virtual "
+    "seconds; TCP only.",
+    "controlled-scheduler concurrency testing (randomised + PCT-like schedules) with a sequence oracle", "DESIGN.md#c04")
+reg("C05",
+    WORLD + "1-3 submitter threads x message sequences (sizes crossing the 256 KiB batch limit) x partial-write patterns x inbound "
+    "traffic x schedule prefixes; every byte accepted by the fake socket is reference-decoded and compared with the submitted "
+    "messages (whole, multiset, per-submitter order).",
+    "Schedules sampled; partial writes accept >= 1 byte; BlockingIOError is not injected on a writable socket; base traffic (CER/CEA, "
+    "DWR/DWA, DPR/DPA) filtered by command code.",
+    "controlled-scheduler concurrency testing with fault injection (partial writes) and a stream oracle", "DESIGN.md#c05")
+
 ALL = [f"C{i:02d}" for i in range(1, 21)]
 
 def main():
